@@ -31,6 +31,15 @@ Proof.
   intro Hin. rewrite Forall_forall in Hx. specialize (Hx _ Hin). lia.
 Qed.
 
+Lemma sorted_lt_app l1 l2 :
+  StronglySorted Z.lt l1 -> StronglySorted Z.lt l2 ->
+  (forall x y, In x l1 -> In y l2 -> x < y) -> StronglySorted Z.lt (l1 ++ l2).
+Proof.
+  induction 1 as [|x l1 Hs IH Hx]; cbn; intros H2 Hlt; [exact H2|].
+  constructor; [apply IH; auto; intros; apply Hlt; auto; right; auto|].
+  apply Forall_app. split; [exact Hx|]. apply Forall_forall. intros y Hy. apply Hlt; [left; reflexivity|exact Hy].
+Qed.
+
 Lemma sem_nested_in docs q i :
   In i (sem_nested docs q) <-> exists d, In d docs /\ did d = i /\ sat q (dtree d) 0 = true.
 Proof.
